@@ -265,7 +265,8 @@ def case_corr(d):
         FN[d["fn"]], nlist(x.shape), zlit(d["axis"]), blit(cx), blit(cy), blit(d["al"]), blit(d["db"]), blit(d["nm"]),
         "None" if fs is None else "(Some %s)" % nlit(fs), flit(rtol), flit(atol), fclist(x), fclist(y), fclist(out))
     rp = {"d": d, "observed": arr_desc(out), "fsize_observed": fs}
-    c = Case(coq, rp, "corr/%s/%s/%dd/N=%s" % (d["fn"], dclass(x), x.ndim, sizeclass(x.shape[d["axis"]])))
+    c = Case(coq, rp, "corr/%s/%s/%dd" % (d["fn"], dclass(x), x.ndim))
+    c.nclass = "N=" + sizeclass(x.shape[d["axis"]]) + ("/all_lags" if d["al"] else "") + ("/debias" if d["db"] else "") + ("/normalize" if d["nm"] else "")
     c.out = out
     return c
 
@@ -309,8 +310,10 @@ def gen_shape(rng, maxn, ndim=None):
     return shape, axis
 
 
-def gen_corr(rng, maxn):
+def gen_corr(rng, maxn, force_n=None):
     shape, axis = gen_shape(rng, maxn)
+    if force_n:
+        shape, axis = [force_n], rng.choice([0, -1])
     dts = ["float64", "float64", "complex128", "complex128", "int64", "float32", "complex64"]
     dx = rng.choice(dts)
     dy = dx if rng.random() < 0.7 else rng.choice(dts)
@@ -330,7 +333,7 @@ def case_seed(d):
     N = len(seed)
     rows = target.reshape(-1, N)
     coq = "(KSeed %s %s %s %s)" % (nlit(N), fl(seed), llit([fl(r) for r in rows]), fl(out))
-    c = Case(coq, {"d": d, "observed": arr_desc(out)}, "seed/N=%s/rows=%d" % (sizeclass(N), len(rows)))
+    c = Case(coq, {"d": d, "observed": arr_desc(out)}, "seed/rows=%d" % len(rows))
     c.out = out
     return c
 
@@ -487,7 +490,7 @@ def case_xcorr(d):
         coq = "(KXcorrNorm %s %s %s %s %s)" % (nlit(nch), nlit(N), llit([fl(r) for r in lib]), fl(cc), llit([fl(r) for r in rows]))
     else:
         coq = "(KXcorr %s %s %s %s)" % (nlit(nch), nlit(N), llit([fl(r) for r in lib]), llit([fl(r) for r in rows]))
-    c = Case(coq, {"d": d, "observed": arr_desc(out)}, "%s/nch=%d/N=%s" % (d["k"], nch, sizeclass(N)))
+    c = Case(coq, {"d": d, "observed": arr_desc(out)}, "%s/nch=%d" % (d["k"], nch))
     c.out = out
     return c
 
@@ -563,7 +566,7 @@ def case_corrspec(d):
     X2 = fftpack.fft(x2 - np.mean(x2))
     n = len(x1)
     coq = "(KCorrSpec %s %s %s %s %s %s %s)" % (nlit(n), blit(d["norm"]), fl(x1), fl(x2), fclist(X1), fclist(X2), fl(ccn))
-    c = Case(coq, {"d": d, "observed": arr_desc(ccn)}, "correlation_spectrum/norm=%s/n=%s" % (d["norm"], sizeclass(n)))
+    c = Case(coq, {"d": d, "observed": arr_desc(ccn)}, "correlation_spectrum/norm=%s/%s" % (d["norm"], "even" if n % 2 == 0 else "odd"))
     c.out = np.asarray(ccn)
     return c
 
@@ -619,7 +622,7 @@ def case_ent(d):
     # the library kernel, called separately on the same probabilities p = k/n
     tab = [0.0] + [float(np.log2(np.mean(np.array([True] * k + [False] * (n - k))))) for k in range(1, n + 1)]
     coq = "(KEnt %s %s %s %s %s)" % (EK[d["kind"]], llit([llit([zlit(v) for v in x]) for x in xs]), nlit(d["lag"]), fl(tab), flit(out))
-    c = Case(coq, {"d": d, "observed": float(out).hex()}, "ent/%s/vars=%d/alph=%d" % (d["kind"], len(xs), len(set(xs[0]))),
+    c = Case(coq, {"d": d, "observed": float(out).hex()}, "ent/%s/vars=%d" % (d["kind"], len(xs)),
              nontrivial=not math.isnan(out))
     c.out = out
     c.skip_k = math.isnan(out)
@@ -752,6 +755,11 @@ def make_case(d):
 def oracle(d, out, rng):
     """-> list of Fail"""
     k = d["k"]
+    if k != "ent" and not np.all(np.isfinite(np.asarray(out))):
+        # the generators keep to the guarded domain (no constant / zero-mean lanes), where every
+        # definition gives finite values
+        return [Fail("C20/%s/non-finite" % (d.get("fn") or k), "the result contains nan/inf on an input where the definition is finite",
+                     "non-finite values", "finite values")]
     if k == "corr":
         f = oracle_corr(d, out)
     elif k == "seed":
@@ -782,7 +790,7 @@ def run(ctx):
     core.import_nitime()
     ctx.check_props()
     rng = ctx.rng
-    maxn = ctx.scale(48, 128)
+    maxn = ctx.scale(40, 64)
     ds = corpus_cases()
     plan = [("corr", ctx.scale(170, 1500)), ("seed", ctx.scale(40, 300)), ("zscore", ctx.scale(45, 300)),
             ("pct", ctx.scale(45, 300)), ("xcorr", ctx.scale(30, 200)), ("xcorr_norm", ctx.scale(30, 200)),
@@ -801,6 +809,9 @@ def run(ctx):
                 ds.append(gen_corrspec(rng, maxn))
             else:
                 ds.append(gen_ent(rng, ctx.scale(80, 200)))
+    if not ctx.quick:
+        for N in (96, 100, 127, 128):  # a few long lanes (the theorems, not K, carry the large sizes)
+            ds.append(gen_corr(rng, maxn, force_n=N))
     rng.shuffle(ds)                    # balance the shards
     import time as _t
     t0 = _t.time()
@@ -832,6 +843,19 @@ def run(ctx):
             f.replay = {"entry_point": d["k"], "model_disagrees": id(c) in badids}
             ctx.report_fail(f, c)
     ctx.extra["model_impl_disagreements"] = len(kbad)
+    nc = {}
+    for c in cases:
+        k = getattr(c, "nclass", None)
+        if k:
+            nc[k] = nc.get(k, 0) + 1
+    ctx.extra["corr_axis_length_and_flag_classes"] = nc
+    al = {}
+    for c in cases:
+        d = c.replay["d"]
+        if d["k"] == "ent":
+            k = "alphabet=%d/len=%s" % (len(set(d["xs"][0])), "<=8" if len(d["xs"][0]) <= 8 else ">8")
+            al[k] = al.get(k, 0) + 1
+    ctx.extra["entropy_alphabet_and_length_classes"] = al
     ctx.extra["phase_seconds"] = {"run_implementation": round(t1 - t0, 1), "K_coqc": round(t2 - t1, 1), "oracle": round(_t.time() - t2, 1)}
     ctx.extra["rule"] = ("seeded generator: crosscov/crosscorr/autocov/autocorr on 1..3-d arrays (any axis, also negative), "
                          "float64/complex128/int64/float32/complex64, all flag combinations, lengths 2..%d of every parity and "
@@ -843,8 +867,9 @@ def run(ctx):
                  "scipy.fftpack.fft (correlation_spectrum), np.log2; scipy.fftpack fft/ifft inside fftconvolve are represented "
                  "by their contract (convolution theorem: ifft(fft(a,F)*fft(b,F)) = circular convolution), a Section hypothesis "
                  "in the theorems; np.log2/np.ceil of an integer size are exact",
-                 "Coq.Reals axioms (for the entropy inequalities only): ClassicalDedekindReals.sig_forall_dec, "
-                 "ClassicalDedekindReals.sig_not_dec, FunctionalExtensionality.functional_extensionality_dep"],
+                 "Coq.Reals axioms (information-measure theorems only; the correlation / normalisation theorems are closed "
+                 "under the global context): ClassicalDedekindReals.sig_forall_dec, ClassicalDedekindReals.sig_not_dec, "
+                 "Classical_Prop.classic, FunctionalExtensionality.functional_extensionality_dep"],
         assumptions=["inputs outside the statement are not generated: constant lanes for zscore, zero-mean lanes for "
                      "percent_change, sequences of unequal length, H(X)+H(Y)=0 for entropy_cc"])
 
